@@ -131,8 +131,7 @@ fn add_types_recursive(
 )
     «requires
         types_wf(module), // [C08.types-pre] naga's UniqueArena is built bottom-up
-        0 <= handle_index(ty) < ntypes(module),
-        closed_upto(module, old(types)@, handle_index(ty)), // every finished type at or below `ty` already has its contents in the set (in-progress ancestors have larger handles)
+        type_call_ok(module, old(types)@, handle_index(ty)), // `ty` is a type of the module, and every finished type at or below `ty` already has its contents in the set (in-progress ancestors have larger handles)
     ensures
         smono(old(types)@, final(types)@), // [C08.closure-mono] nothing is removed
         all_reached(module, final(types)@, handle_index(ty)), // [C08.closure-complete] every type reachable from `ty` through members, arrays, runtime arrays, pointers, binding arrays is in the set
